@@ -116,8 +116,14 @@ type event struct {
 type frame struct {
 	recvType, recvName string
 	paramTypes         map[string]string
-	binds              map[string]ast.Expr // func-typed parameters bound to closures / method values
+	binds              map[string]bound // func-typed parameters bound to closures / method values
 	defers             []func()
+}
+
+// bound: an argument of function type, with the frame it was written in
+type bound struct {
+	e  ast.Expr
+	fr *frame
 }
 
 type tracer struct {
@@ -145,7 +151,7 @@ func hasComp(path []string, comp string) bool {
 	return false
 }
 
-func (t *tracer) traceFunc(fd *ast.FuncDecl, binds map[string]ast.Expr) {
+func (t *tracer) traceFunc(fd *ast.FuncDecl, binds map[string]bound) {
 	for _, s := range t.stack {
 		if s == fd {
 			return
@@ -414,7 +420,7 @@ func (t *tracer) doCall(fr *frame, c *ast.CallExpr, evalArgs bool) {
 	}
 	callee := t.resolve(fr, c.Fun)
 	follow := callee != nil && t.inline && len(t.stack) < t.maxDepth
-	binds := map[string]ast.Expr{}
+	binds := map[string]bound{}
 	if evalArgs {
 		var params []string
 		if follow && callee.Type.Params != nil {
@@ -428,7 +434,7 @@ func (t *tracer) doCall(fr *frame, c *ast.CallExpr, evalArgs bool) {
 			switch av := a.(type) {
 			case *ast.FuncLit:
 				if follow && i < len(params) {
-					binds[params[i]] = av
+					binds[params[i]] = bound{av, fr}
 					continue
 				}
 				t.closure(fr, av) // nowhere to follow it to: assume it is called
@@ -437,7 +443,7 @@ func (t *tracer) doCall(fr *frame, c *ast.CallExpr, evalArgs bool) {
 				// follow it, here otherwise)
 				if fd := t.resolveValue(fr, av); fd != nil {
 					if follow && i < len(params) {
-						binds[params[i]] = av
+						binds[params[i]] = bound{av, fr}
 						continue
 					}
 					if t.inline && len(t.stack) < t.maxDepth {
@@ -477,12 +483,12 @@ func (t *tracer) doCall(fr *frame, c *ast.CallExpr, evalArgs bool) {
 	}
 	// a func-typed parameter bound to something we know
 	if id, ok := c.Fun.(*ast.Ident); ok && fr.binds != nil {
-		if b := fr.binds[id.Name]; b != nil {
-			switch bv := b.(type) {
+		if b, ok := fr.binds[id.Name]; ok {
+			switch bv := b.e.(type) {
 			case *ast.FuncLit:
-				t.block(&frame{paramTypes: map[string]string{}}, bv.Body.List)
+				t.closure(b.fr, bv)
 			default:
-				if fd := t.resolveValue(&frame{}, bv); fd != nil {
+				if fd := t.resolveValue(b.fr, bv); fd != nil {
 					t.traceFunc(fd, nil)
 				}
 			}
